@@ -1,4 +1,79 @@
 """Signature predicates of the known findings listed in /verif/known_findings.json.
 
-`sig_<id>(suite_name, case, obs) -> bool` decides whether a failing input is an instance of that finding.
-A failing input that matches no predicate is a new violation."""
+`sig_<id>(suite_name, case, obs, clause) -> bool` decides whether a failing input (with the violated clause text the
+oracle produced) is an instance of that finding.  A failing input that matches no predicate is a new violation."""
+import re
+from fractions import Fraction
+
+
+def _call_index(clause):
+    m = re.search(r"call (\d+)", clause)
+    return int(m.group(1)) if m else None
+
+
+def sig_F12(suite, case, obs, clause):
+    """Fluent distribute: the R record's source range is written in EVO numbering."""
+    i = _call_index(clause)
+    if case.get("dev") != "fluent" or i is None or i >= len(case.get("ops", [])):
+        return False
+    op = case["ops"][i]
+    if op["op"] != "distribute":
+        return False
+    src = case["labware"][op["src"]]
+    return src["kind"] == "trough" and src["vrows"] > 1
+
+
+def sig_F13(suite, case, obs, clause):
+    """transfer(label="first"/"last") is logged with the label condense_log resolves for that keyword."""
+    i = _call_index(clause)
+    if i is None or i >= len(case.get("ops", [])):
+        return False
+    op = case["ops"][i]
+    if op["op"] == "transfer":
+        lab = op.get("label")
+    elif op["op"] == "distribute" and op["src"] == op["dst"]:
+        lab = op.get("label", "")
+    else:
+        return False
+    if lab not in ("first", "last"):
+        return False
+    # only when no LVH note is appended (then the label is no longer the bare keyword)
+    return "LVH" not in clause.split("expected")[-1]
+
+
+def _plan_exact(case, obs):
+    from harness.suites.plan import exact_plan
+
+    vm = case["vmax"]
+    C = case["C"]
+    vmaxl = [Fraction(vm["v"])] * C if vm["shape"] == "scalar" else [Fraction(x) for x in vm["v"]]
+    ideal = [[Fraction(t) for t in col] for col in obs["ideal"]]
+    ins, xs, _ = exact_plan(ideal, Fraction(case["stock"]), vmaxl, Fraction(case["min_transfer"]))
+    return ins, vmaxl
+
+
+def sig_F11a(suite, case, obs, clause):
+    """DilutionPlan: a planned transfer exceeds vmax of its target column (per-column or non-integer vmax)."""
+    if suite != "plan":
+        return False
+    ins, vmaxl = _plan_exact(case, obs)
+    return any(v > vmaxl[c] for c, ds, src, vt in ins for v in vt)
+
+
+def sig_F11b(suite, case, obs, clause):
+    """DilutionPlan: several columns are diluted from one source column and together draw more than it holds."""
+    if suite != "plan":
+        return False
+    ins, vmaxl = _plan_exact(case, obs)
+    drawn = {}
+    for c, ds, src, vt in ins:
+        if src is not None:
+            col = ins[src][0]
+            for r, v in enumerate(vt):
+                drawn[(col, r)] = drawn.get((col, r), 0) + v
+    return any(v > vmaxl[col] for (col, r), v in drawn.items())
+
+
+def sig_F11c(suite, case, obs, clause):
+    """executing a plan that exceeds vmax / over-draws a column fails (consequence of F11a / F11b)"""
+    return sig_F11a(suite, case, obs, clause) or sig_F11b(suite, case, obs, clause)
